@@ -122,6 +122,11 @@ func (r *Runner) runTool(cfg string, killAt int) (exit int, killed bool, out str
 		cmd = exec.CommandContext(ctx, r.Bin, "-c", cfg)
 	}
 	cmd.Env = []string{"PATH=/usr/bin:/bin", "HOME=/nonexistent"}
+	if killAt > 0 {
+		// strace counts system calls per thread; keep the tool's deletions on
+		// as few threads as the Go runtime allows
+		cmd.Env = append(cmd.Env, "GOMAXPROCS=1")
+	}
 	var buf bytes.Buffer
 	cmd.Stdout, cmd.Stderr = &buf, &buf
 	runErr := cmd.Run()
